@@ -289,7 +289,16 @@ func main() {
 	for _, d := range f.Decls {
 		if fd, ok := d.(*ast.FuncDecl); ok && fd.Body != nil {
 			if len(only) > 0 && !only[fd.Name.Name] {
-				continue
+				// "@text" selects every function whose body mentions text
+				hit := false
+				for k := range only {
+					if strings.HasPrefix(k, "@") && strings.Contains(src(fd.Body), k[1:]) {
+						hit = true
+					}
+				}
+				if !hit {
+					continue
+				}
 			}
 			idSuffix = receiverID(fd)
 			rewriteBlock(fd.Name.Name, fd.Body)
